@@ -675,18 +675,21 @@ class NumericWaveform(ABC, Generic[_TRaw, _TScaled]):
         for waveform in waveforms:
             new_timing = new_timing._append_timing(waveform._timing)
 
-        self._increase_capacity(sum(waveform.sample_count for waveform in waveforms))
+        # Read the sample counts up front: when a waveform is appended to itself, its sample count
+        # changes while the samples are being appended.
+        sample_counts = [waveform.sample_count for waveform in waveforms]
+        self._increase_capacity(sum(sample_counts))
 
         # Copy the samples before updating the timing, sample count, and extended properties so that
         # a failed copy (for example, into a read-only buffer) leaves the waveform unchanged.
         offset = self._start_index + self._sample_count
-        for waveform in waveforms:
-            self._data[offset : offset + waveform.sample_count] = waveform.raw_data
-            offset += waveform.sample_count
+        for waveform, sample_count in zip(waveforms, sample_counts):
+            self._data[offset : offset + sample_count] = waveform.raw_data[:sample_count]
+            offset += sample_count
 
         self._set_timing(new_timing)
-        for waveform in waveforms:
-            self._sample_count += waveform.sample_count
+        for waveform, sample_count in zip(waveforms, sample_counts):
+            self._sample_count += sample_count
             self._extended_properties._merge(waveform._extended_properties)
 
     def _increase_capacity(self, amount: int) -> None:
